@@ -10,7 +10,7 @@
    compares reals by kind only. *)
 From Coq Require Import NArith ZArith List Bool.
 From Qv Require Import gen.Tables_json JsonModel JsonSpec JsonProofsBase JsonProofsStr JsonProofsNum JsonProofsParse
-  JsonProofsComplete JsonProofsDoc JsonProofsCst JsonProofsInt JsonProofsC06.
+  JsonProofsComplete JsonProofsDoc JsonProofsCst JsonProofsInt JsonProofsC06 JsonDigitExt JsonDigitRfc JsonDigitC06.
 Import ListNotations.
 Local Open Scope N_scope.
 
@@ -76,6 +76,77 @@ Print Assumptions c06_d81_example.
 Theorem c06_example : cval_wf 1 ex_tree = true /\ parse 1 (cprint 1 ex_tree) = JOk (cdenote 1 ex_tree).
 Proof. split; [apply ex_tree_wf|exact ex_tree_parses]. Qed.
 Print Assumptions c06_example.
+
+(* ------------------------------------------------------------------ *)
+(* REALS DISCHARGED (JsonDigitExt.v, JsonDigitRfc.v, JsonDigitC06.v).
+   1. The verdict of the number scanner on a numeral does not depend on what follows it (nothing, whitespace,
+      a comma, a closing bracket): *)
+Theorem c06_scanner_verdict_independent_of_follower : forall l rest n,
+  num_follow rest = true -> scan_number l = JOk n -> scan_number (l ++ rest) = JOk (ext_rest n rest).
+Proof. exact scan_number_ext. Qed.
+Print Assumptions c06_scanner_verdict_independent_of_follower.
+
+(* hence real_numeral is decided by running the scanner on the numeral text alone (a boolean) *)
+Theorem c06_real_numeral_decided : forall txt, real_wholeb txt = true -> real_numeral txt.
+Proof. exact real_numeral_decided. Qed.
+Print Assumptions c06_real_numeral_decided.
+
+(* 2. Every numeral of the RFC number grammar ([RfcNum]: optional minus, a digit, then digits, optional point and
+      digits, optional exponent -- a superset of the grammar) is taken WHOLE: the scanner never stops inside it *)
+Theorem c06_rfc_numeral_taken_whole : forall txt, RfcNum txt -> exists n, scan_number txt = JOk n /\ whole n.
+Proof. exact scan_number_rfc_whole. Qed.
+Print Assumptions c06_rfc_numeral_taken_whole.
+
+(* one with a fraction or an exponent ([RfcFrac]) is classified Real, or rejected by the scanner's range tests *)
+Theorem c06_rfc_real_is_real_or_out_of_range : forall txt, RfcFrac txt ->
+  scan_number txt = JOk (NumReal []) \/ scan_number txt = JOk NumNaN.
+Proof. exact scan_number_rfc_real. Qed.
+Print Assumptions c06_rfc_real_is_real_or_out_of_range.
+
+(* so real_numeral HOLDS for every RFC real numeral in range; the range predicate is the boolean
+   [real_in_range txt] = "the scanner's range tests do not reject the numeral" *)
+Theorem c06_real_numeral_of_rfc_in_range : forall txt, RfcFrac txt -> real_in_range txt = true -> real_numeral txt.
+Proof. exact rfc_real_numeral. Qed.
+Print Assumptions c06_real_numeral_of_rfc_in_range.
+
+(* 3. The main theorem with the abstract hypothesis reals_ok replaced by the boolean guard reals_okb (every real leaf:
+      real_wholeb), which holds for RFC reals in range (c06_real_leaf_guard) *)
+Theorem c06_parse_print_reals_decided : forall w c ws1 ws2,
+  cval_wf w c = true -> reals_okb c = true -> is_container c = true -> ws_wf ws1 = true -> ws_wf ws2 = true ->
+  parse w (ws1 ++ cprint w c ++ ws2) = JOk (cdenote w c).
+Proof. exact parse_print_decided. Qed.
+Print Assumptions c06_parse_print_reals_decided.
+
+Theorem c06_real_leaf_guard : forall txt, RfcFrac txt -> real_in_range txt = true -> real_wholeb txt = true.
+Proof. exact real_leaf_ok. Qed.
+Print Assumptions c06_real_leaf_guard.
+
+(* 4. Values: a real leaf denotes the bits DigitModel.string_to_number assigns to its numeral text ([values]) *)
+Theorem c06_parse_print_values : forall w c ws1 ws2,
+  cval_wf w c = true -> reals_okb c = true -> is_container c = true -> ws_wf ws1 = true -> ws_wf ws2 = true ->
+  parse_values w (ws1 ++ cprint w c ++ ws2) = Some (values (cdenote w c)).
+Proof. exact parse_print_values. Qed.
+Print Assumptions c06_parse_print_values.
+
+(* non-vacuity: a document with reals of every spelling (1.5, -0.00125e+3, 1E22, a 21-digit mantissa, 0e5,
+   2.2250738585072014e-308), its guard, its parse, the bits of two leaves, the grammar predicate, the range test *)
+Theorem c06_reals_example :
+  cval_wf 0 real_ex = true /\ reals_okb real_ex = true /\ parse 0 (cprint 0 real_ex) = JOk (cdenote 0 real_ex) /\
+  real_bits [49; 46; 53] = Some 4609434218613702656 /\ RfcFrac [49; 46; 53] /\ real_in_range [49; 101; 52; 48; 48] = false.
+Proof.
+  destruct real_ex_ok as [H1 H2]. destruct real_ex_values as [H3 _]. destruct real_ex_grammar as (H4 & _ & H5).
+  split; [exact H1|]. split; [exact H2|]. split; [exact real_ex_parses|]. split; [exact H3|]. split; [exact H4|exact H5].
+Qed.
+Print Assumptions c06_reals_example.
+
+(* What remains a predicate / a gap:
+   - [real_in_range] is the scanner's own verdict (not NaN), not a statement about the magnitude of the numeral;
+   - integer numerals that do NOT fit 64 bits (e.g. 18446744073709551616) are decided by the boolean real_wholeb, but the
+     grammar-level theorem (c06_rfc_real_is_real_or_out_of_range) covers only numerals with a fraction or an exponent;
+   - that JsonModel.scan_number and DigitModel.string_to_number (two transliterations of Digit::stringToNumber) agree on kind and
+     consumed length is NOT proved here: both are tied to the C++ by their own correspondence runs; [values] takes the bits from
+     DigitModel.string_to_number applied to the numeral text alone;
+   - that the bits are within one unit in the last place of the numeral: C09. *)
 
 (* NOT proved (correspondence only): that real numerals satisfy [real_numeral] and are within one
    unit in the last place (C09); that every RFC 8259 text is the print of some tree (by
